@@ -156,6 +156,12 @@ func (e *Engine) wf(t types.Type, l []Term, next Term, cs *[]Term) {
 		} else if len(l) == 2 {
 			// a nil interface has no payload
 			*cs = append(*cs, Implies(Eq(l[0], IntLit(0)), Eq(l[1], e.ctx.Const("zero_Box", l[1].Sort))))
+			if isNamed(t, "sets", "Set") {
+				// the set object behind a non-nil Set value has been allocated
+				ref := e.setMapOf(nil, Val{T: t, L: l}).L[0]
+				id := e.allocID(ref)
+				*cs = append(*cs, Implies(Not(Eq(l[0], IntLit(0))), And(Lt(IntLit(0), id), Lt(id, next))))
+			}
 		}
 	}
 }
